@@ -1,4 +1,4 @@
-import EdVerif.Impl.Point
+import EdVerif.Impl.FormulaPrims
 /-!
 # What each straight-line function above the kernels computes, in terms of the hand-written model
 
